@@ -34,6 +34,42 @@ CHECKS = {
  "C08": dict(engine="proptest", technique="exhaustive enumeration (names, run numbers, boards x chips x channels) against a reference grammar and bijection counting, plus proptest for non-ASCII / other lengths",
    text="Every 4-byte name over an alphabet (all 128^4 ASCII strings in thorough) and other lengths through all 13 name parsers against a reference grammar; accepted names injective; for every run number 0..=20000 and extremes the wire map is a bijection onto 256 wires or all-Err, the PWB placement has exactly 64 boards on 64 cells or all-Err, the pad map is a bijection onto 18432 pads; simulation == run 5000; wire/pad-column association equals geometry.",
    note="Geometry association is read through the verif-hooks feature (wire_to_pad_column / pad_column_to_wires); golden board tables trusted.", ref="DESIGN.md section 4 C08"),
+ "C09": dict(engine="proptest", technique="property-based robustness testing (proptest): junk bank lists, realistic and forward-model events, CRC-valid extreme edits; catch_unwind + finiteness oracle; both overflow-check profiles",
+   text="No generated bank list makes event building, timestamp(), avalanches() or vertex() panic, and every returned avalanche/vertex is finite, in builds with and without overflow checks; generated: junk banks, hit-pattern events, forward-model annihilations, and events re-encoded with valid CRCs/baselines after extreme edits (i16/ADC limits, waveform lengths 64..703 (65533 thorough), requested_samples 0/1/100/101/511, all 79 channels, full wire ring, duplicated/dropped/foreign/corrupted banks, all calibration eras).",
+   note="Aborts / stack overflows are not observable through catch_unwind (they end the check with exit 2).", ref="DESIGN.md section 4 C09"),
+ "C10": dict(engine="proptest", technique="model-based testing: slot-by-slot reference model of the event's signal arrays (own calibration reader) compared through a read-only hook; single-fault injection; hook-free single-pulse variant",
+   text="For generated events over all boards/chips/channels, run eras and bank orders the wire and pad signal arrays equal an independent model exactly (slot, delay, baseline, gain by f64 bits), the timestamp is the TRG field, fault-free events are accepted exactly when all maps/calibrations exist and every injected single inconsistency (14 kinds) is rejected; a hook-free variant checks wire, time bin and pad row of single pulses through avalanches().",
+   note="Uses verif-hooks accessors; calibration files parsed with the same serde crates as the library; header-only duplicate packets are out of scope (see DESIGN).", ref="DESIGN.md section 4 C10"),
+ "C11": dict(engine="proptest", technique="metamorphic testing over bank permutations (all adjacent transpositions, reversal, generated) and repetition across threads and fresh child processes",
+   text="Build outcome and signal arrays are identical for every tested bank order; the full result (Ok/Err, timestamp, avalanche sequence and vertex by bits) is identical for reversal, generated orders, two evaluations in one thread, four other threads and - sampled - fresh child processes (different HashMap seeds); includes inconsistent PWB messages that collide on the same pads.",
+   note="OS scheduling is not controlled; only thread identity, repetition and process boundaries vary.", ref="DESIGN.md section 4 C11"),
+ "C12": dict(engine="proptest", technique="statistical property test over an independent forward model of the detector (proptest-generated truth, batch statistics against the stated thresholds)",
+   text="Batches of forward-model annihilation events (own simulation: helices, shipped drift table, response functions, induction, digitisation, packing) are reconstructed with MainEvent::vertex(); efficiency, median/P90 |dz|, median transverse error and median signed dz are compared with the property's limits per batch (quick 400 events, thorough 10 x 1000).",
+   note="The forward model is the harness's own; margins on the unchanged tree are 4+ standard errors (DESIGN section 4 C12).", ref="DESIGN.md section 4 C12"),
+ "C13": dict(engine="proptest", technique="metamorphic testing: all 31 rotations by pad columns and the z mirror applied to calibrated signals, bit-exact comparison of avalanche multisets",
+   text="For hit-pattern, block (every block length, seam-straddling, two blocks), forward-model and full-ring signal sets, every rotation maps the avalanche multiset onto itself bit for bit and the mirror negates z within 1e-9 m with identical wires/times/amplitudes; pad-amplitude ties are detected and set aside for the mirror. Full ring = known finding D4 (reported as KNOWN-FINDING, mirror still checked behind it).",
+   note="Events are built with the event_from_signals hook; avalanches() is the public API.", ref="DESIGN.md section 4 C13"),
+ "C14": dict(engine="proptest", technique="property-based robustness testing over degenerate point-set families and helix pitch decades; catch_unwind + finiteness/range oracle; both overflow-check profiles",
+   text="cluster_spacepoints, Track::try_from and find_vertices return on generated point sets (10 families incl. exactly/nearly collinear with perturbation 1e-18..1e-2, repeated, equal radius, vertical, circles through the origin, dyadic grids), on direct fits of every family, and on hook-built track sets over all pitch decades with ties; returned tracks/vertices are finite with parameters in [-pi, pi].",
+   note="Continuous domain: families and decades are counted so gaps are visible, but measure-zero NaN sets can be missed.", ref="DESIGN.md section 4 C14"),
+ "C15": dict(engine="proptest", technique="invariant checking over generated multisets: partition (multiset equality by bits), minimum size, single-linkage connectivity (union-find), vertex partition",
+   text="Clusters + remainder are exactly the input multiset (by bits, duplicates counted), clusters have >= 13 points and are connected at 3 cm; vertex finding partitions the input tracks and a primary vertex has >= 2 tracks; over C14's point families with exact duplicates and hook-built / fitted track lists.",
+   note="Track identity read through the helix_params hook.", ref="DESIGN.md section 4 C15"),
+ "C16": dict(engine="proptest", technique="differential testing against a brute-force global minimiser (20001-point grid + golden section), cases generated per pitch decade and in Kepler (e, M) coordinates",
+   text="The reported closest-approach parameter is in [-pi, pi], never NaN and, if interior, no other parameter is closer by more than 1e-9 m: direct calls over all pitch decades and over eccentricity/mean-anomaly coordinates dense around e ~ 1, plus hook-free checks of t_inner/t_outer of fitted tracks and of vertex track parameters.",
+   note="The minimiser uses the library's Track::at, so only the choice of t is judged.", ref="DESIGN.md section 4 C16"),
+ "C17": dict(engine="proptest", technique="differential testing against a naive reference implementation (bit-exact), metamorphic scale covariance (bit-exact), pulse-recovery oracle",
+   text="Pad deconvolution equals a one-sample-at-a-time reference bit for bit; outputs finite, non-negative, one per sample/channel; scaling by 2^k scales outputs exactly (pads, wire blocks, whole events through the public API); isolated wire pulses >= 18 samples before the end are recovered to 1e-6 at every ring position.",
+   note="Deconvolution entry points reached through verif-hooks; responses re-binned by the harness.", ref="DESIGN.md section 4 C17"),
+ "C18": dict(engine="proptest", technique="exhaustive knot enumeration + generated lookups against an independent table reader/interpolator; monotonicity, symmetry, bounds",
+   text="Every knot of all 92 slices (exact, +-1 ulp, midpoints), every slice bound +-1 ulp with both signs, and uniform lookups agree with an independent reader on Ok/Err, error kind, radius and Lorentz angle (1e-12), z symmetry by bits, monotonicity and the 8 ns / 0.5 mm clause; the table's own >= 0.5 mm steps are known finding D6 (listed intervals only).",
+   note="Knot set exhaustive; continuous (z, t) sampled.", ref="DESIGN.md section 4 C18"),
+ "C19": dict(engine="proptest", technique="model-based end-to-end testing of the real binaries on generated MIDAS runs (own writer): row model from the library, time unwrapping model, byte identity across thread counts and argument orders",
+   text="alpha-g-vertices and alpha-g-trg-scalers, built from the working tree, are run on generated runs (1-4 files, .mid/.mid.lz4, all bank flavours, both endiannesses, undecodable events anywhere, timestamp wraps, argument permutations, RAYON_NUM_THREADS 1/2/5/16); rows, serial numbers, empty rows, vertex/scaler columns (by bits) and trg_time differences must match the model, bodies must be byte-identical, refusal cases must fail without a CSV.",
+   note="Thread interleavings are sampled, not controlled.", ref="DESIGN.md section 4 C19"),
+ "C20": dict(engine="proptest", technique="model-based end-to-end testing of the real binary on streams of a hardware model of the Chronobox FIFO, arbitrary bank/event/file cuts, single-fault injection",
+   text="alpha-g-chronobox-timestamps is run on generated FIFO streams (up to 8 wraps, 4 boards, edges at/around markers, displaced edges, scaler blocks, cuts inside words, 1-3 files): one row per timestamp after the first counter-0 marker, correct channel/edge/grouping, time non-empty exactly when the specification says so and then equal to the model's true time; truncated/invalid/marker-0 faults must fail without a CSV.",
+   note="A corrupted word that is still a valid timestamp is outside the fault model.", ref="DESIGN.md section 4 C20"),
 }
 
 NOT_YET = {}
